@@ -24,7 +24,8 @@ class Summaries:
 
     def __init__(self, db):
         self.db = db
-        self.by_key = {}     # callee_key -> list of (what, mode) ; what = 'this' or ('param', index)
+        self.by_key = {}     # callee_key -> list of (what, mode) ; what = 'this' or ('param', index)   (all instantiations merged: strongest claim)
+        self.by_inst = {}    # (callee_key, instantiation name) -> the same for that instantiation (co_awaiter<future>::subscribe publishes iff true, co_awaiter<mutex>::subscribe always)
         for name, (what, mode) in PRIMITIVE.items():
             for k in db.find(name):
                 self.by_key[k] = [('this', mode)]
@@ -51,6 +52,10 @@ class Summaries:
                         if what is None:
                             continue
                         fm = self.derive_mode(f, e, mode)
+                        ci = self.by_inst.setdefault((f['key'], f.get('plain_inst') or f.get('inst')), [])
+                        if (what, fm) not in ci:
+                            ci[:] = [c for c in ci if c[0] != what] + [(what, fm)] if not any(c[0] == what and c[1] == 'always' for c in ci) else ci
+                            changed = True
                         cur = self.by_key.setdefault(f['key'], [])
                         if (what, fm) not in cur:
                             # keep the strongest claim per object
@@ -92,7 +97,7 @@ class Summaries:
         if key is None or key not in self.by_key:
             return []
         out = []
-        for what, mode in self.by_key[key]:
+        for what, mode in (self.by_inst.get((key, e.get('callee_inst'))) or self.by_key[key]):
             if what == 'this':
                 if e.k == 'construct':
                     obj = 'obj@%s' % e.get('id')
@@ -242,6 +247,15 @@ def _scan(f, tr, trigger, summ, env):
                     for a in (it.get('args') or []):
                         if strip_addr(a.get('path')) == obj and cls and norm(a.get('type') or '').replace('class ', '').replace('struct ', '').rstrip(' *&') == cls:
                             alias = True
+                        elif strip_addr(a.get('path')) == obj and cls and a.get('field'):
+                            # &x->member converted to a base pointer (awaiter *): the member's declared type decides
+                            owner, _, fname_ = a['field'].rpartition('::')
+                            for c_ in summ.db.classes.values():
+                                if c_.get('inst') == owner or c_.get('name') == owner:
+                                    ft = next((x for x in c_.get('fields', []) if x['name'] == fname_), None)
+                                    if ft is not None and norm((ft.get('canon_type') or ft.get('type') or '').replace('class ', '').replace('struct ', '')).rstrip(' *&') == cls:
+                                        alias = True
+                                    break
                     if it.get('recv') and strip_addr(it.get('recv')) == obj and norm(it.get('recv_type') or '').replace('class ', '').rstrip(' *&') == cls:
                         alias = True
                 if mode == 'always':
